@@ -74,6 +74,7 @@ type Stats struct {
 	ICUnsafe         int  // ignore-case class decisions on which pigeon's lowering differs from the definition (D12)
 	FFFDAtEOF        int  // literal containing U+FFFD attempted at end of input
 	StaleCtxEvents   int
+	DistinctEvals    int // distinct (expression node, offset) pairs evaluated
 	LabelReeval      int // a labelled expression evaluated again at an offset where it was evaluated before
 }
 
@@ -135,17 +136,17 @@ type interp struct {
 	errs   []ErrRec
 	counts map[int]int
 
-	rstack   []*gspec.Rule
-	active   map[string]map[int]int // rule -> offset -> activation count
-	handlers []handler
-	invert   bool
-	failOff  int
-	failSet  map[string]bool
-	budget   int
-	seen     map[[2]int]bool
+	rstack    []*gspec.Rule
+	active    map[string]map[int]int // rule -> offset -> activation count
+	handlers  []handler
+	invert    bool
+	failOff   int
+	failSet   map[string]bool
+	budget    int
+	seen      map[[2]int]bool
 	labelSeen map[[2]int]bool
-	adv      map[int]bool
-	depth    int
+	adv       map[int]bool
+	depth     int
 
 	// left recursion by denotation
 	lrSeed map[string]*lrSeed
@@ -329,6 +330,7 @@ func (it *interp) finish(res *Result, ok bool, end int, v any) {
 		it.st.AdvancedInvalid = append(it.st.AdvancedInvalid, o)
 	}
 	sort.Ints(it.st.AdvancedInvalid)
+	it.st.DistinctEvals = len(it.seen)
 	res.Stats = it.st
 }
 
@@ -836,6 +838,55 @@ func classMemberLowered(e *gspec.Expr, r rune) bool {
 	return false
 }
 
+// classTableModel models the -optimize-basic-latin table pigeon precomputes for an
+// ignore-case class (members marked together with their other-case form, Unicode classes
+// without any case handling); like classMemberLowered it only serves to recognise cases
+// of the recorded finding.
+func classTableModel(e *gspec.Expr, r rune) bool {
+	if r >= 128 {
+		return classMemberLowered(e, r)
+	}
+	other := func(x rune) rune {
+		if unicode.IsLower(x) {
+			return unicode.ToUpper(x)
+		}
+		return unicode.ToLower(x)
+	}
+	for _, c := range e.Chars {
+		if c < 128 && (c == r || (e.IC && other(c) == r)) {
+			return true
+		}
+	}
+	for i := 0; i+1 < len(e.Ranges); i += 2 {
+		lo, hi := e.Ranges[i], e.Ranges[i+1]
+		if lo >= 128 {
+			continue
+		}
+		for j := lo; j < 128 && j <= hi; j++ {
+			if j == r || (e.IC && other(j) == r) {
+				return true
+			}
+		}
+	}
+	for _, name := range e.UClasses {
+		if t := RangeTable(name); t != nil && unicode.Is(t, r) {
+			return true
+		}
+	}
+	return false
+}
+
+// ICDeviates reports whether pigeon's handling of an ignore-case class (general path or
+// basic-latin table) is predicted to decide differently from the definition on rune r:
+// the matcher of finding KF-C15-ICLOWER.
+func ICDeviates(e *gspec.Expr, r rune) bool {
+	if !e.IC {
+		return false
+	}
+	def := ClassMember(e, r)
+	return def != classMemberLowered(e, r) || def != classTableModel(e, r)
+}
+
 // RangeTable resolves a Unicode class name like pigeon documents it (categories,
 // scripts, properties).
 func RangeTable(name string) *unicode.RangeTable {
@@ -860,7 +911,7 @@ func (it *interp) class(e *gspec.Expr, off int) (any, int, bool) {
 	}
 	r, w := utf8.DecodeRune(it.in[off:])
 	member := ClassMember(e, r)
-	if e.IC && member != classMemberLowered(e, r) {
+	if ICDeviates(e, r) {
 		it.st.ICUnsafe++
 	}
 	if member == e.Inv {
